@@ -65,18 +65,8 @@ Lemma eval_crel i s j s' h ts es e e' :
   match h with HRef x => e x = e' x | _ => crel h 0 ts es e e' end ->
   eval (Node i s h ts) e = eval (Node j s' h es) e'.
 Proof.
-  intro H. destruct h.
-  - shapes ts es H; reflexivity.
-  - shapes ts es H; reflexivity.
-  - shapes ts es H; reflexivity.
-  - (* Bin *) shapes ts es H; try reflexivity.
-    pose proof (crel_0 _ _ _ _ _ _ _ H [] eq_refl) as E0; pose proof (crel_1 _ _ _ _ _ _ _ _ _ H [] eq_refl) as E1.
-    cbn in E0, E1. cbn [eval]. rewrite E0, E1; reflexivity.
-  - (* Un *) shapes ts es H; try reflexivity.
-    pose proof (crel_0 _ _ _ _ _ _ _ H [] eq_refl) as E0. cbn in E0. cbn [eval]. rewrite E0; reflexivity.
-  - (* Cmp *) shapes ts es H; try reflexivity.
-    pose proof (crel_0 _ _ _ _ _ _ _ H [] eq_refl) as E0; pose proof (crel_1 _ _ _ _ _ _ _ _ _ H [] eq_refl) as E1.
-    cbn in E0, E1. cbn [eval]. rewrite E0, E1; reflexivity.
+  intro H. destruct h;
+    try (cbn [eval]; f_equal; eapply crel_map; [|exact H]; intro k; reflexivity).
   - (* If *) shapes ts es H; try reflexivity.
     pose proof (crel_0 _ _ _ _ _ _ _ H [] eq_refl) as E0; pose proof (crel_1 _ _ _ _ _ _ _ _ _ H [] eq_refl) as E1.
     pose proof (crel_2 _ _ _ _ _ _ _ _ _ _ _ H [] eq_refl) as E2.
@@ -85,18 +75,6 @@ Proof.
     pose proof (crel_0 _ _ _ _ _ _ _ H [] eq_refl) as E0. cbn in E0. cbn [eval]. rewrite E0.
     pose proof (crel_1 _ _ _ _ _ _ _ _ _ H [eval u e'] eq_refl) as E1. cbn in E1. exact E1.
   - (* Ref *) cbn [eval]; exact H.
-  - (* MakeStruct *) cbn [eval]; f_equal; f_equal; eapply crel_map; [|exact H]; intro k; reflexivity.
-  - (* GetField *) shapes ts es H; try reflexivity.
-    pose proof (crel_0 _ _ _ _ _ _ _ H [] eq_refl) as E0. cbn in E0. cbn [eval]. rewrite E0; reflexivity.
-  - (* MakeArray *) cbn [eval]; f_equal; eapply crel_map; [|exact H]; intro k; destruct k; reflexivity.
-  - shapes ts es H; try reflexivity.
-    pose proof (crel_0 _ _ _ _ _ _ _ H [] eq_refl) as E0. cbn in E0. cbn [eval]. rewrite E0; reflexivity.
-  - shapes ts es H; try reflexivity.
-    pose proof (crel_0 _ _ _ _ _ _ _ H [] eq_refl) as E0. cbn in E0. cbn [eval]. rewrite E0; reflexivity.
-  - shapes ts es H; try reflexivity.
-    pose proof (crel_0 _ _ _ _ _ _ _ H [] eq_refl) as E0. cbn in E0. cbn [eval]. rewrite E0; reflexivity.
-  - shapes ts es H; try reflexivity.
-    pose proof (crel_0 _ _ _ _ _ _ _ H [] eq_refl) as E0. cbn in E0. cbn [eval]. rewrite E0; reflexivity.
   - (* StreamMap *) shapes ts es H; try reflexivity.
     pose proof (crel_0 _ _ _ _ _ _ _ H [] eq_refl) as E0. cbn in E0. cbn [eval]. rewrite E0.
     destruct (eval u e'); try reflexivity. f_equal. apply map_ext. intro v.
